@@ -122,6 +122,10 @@ func prepare(race bool, pkgs []string) (*build, error) {
 	syscall.Flock(int(lock.Fd()), syscall.LOCK_EX)
 	defer syscall.Flock(int(lock.Fd()), syscall.LOCK_UN)
 
+	if _, err := os.Stat(dir); err == nil {
+		now := time.Now()
+		os.Chtimes(dir, now, now) // mark as in use (see pruneCache)
+	}
 	b := &build{dir: dir, overlay: filepath.Join(dir, "overlay.json"), race: race}
 	b.binDir = filepath.Join(dir, "bin")
 	if race {
@@ -185,6 +189,9 @@ func (b *build) binary(pkg string) string {
 	return filepath.Join(b.binDir, name+".test")
 }
 
+// pruneCache removes build caches that have not been used for over an hour, beyond the eight
+// most recently used ones. A cache directory's mtime is refreshed at every use (prepare), so a
+// directory that another check is running from is never removed.
 func pruneCache(keep string) {
 	ents, _ := os.ReadDir(cacheDir)
 	type e struct {
@@ -201,7 +208,7 @@ func pruneCache(keep string) {
 	}
 	sort.Slice(dirs, func(i, j int) bool { return dirs[i].t.After(dirs[j].t) })
 	for i, d := range dirs {
-		if i >= 2 {
+		if i >= 8 && time.Since(d.t) > time.Hour {
 			os.RemoveAll(filepath.Join(cacheDir, d.name))
 			os.Remove(filepath.Join(cacheDir, d.name+".lock"))
 		}
